@@ -64,12 +64,14 @@ def do_seed(sid):
     d = os.path.join(VERIF, "seeded", sid)
     meta = json.load(open(os.path.join(d, "meta.json")))
     wt = scratch("seed-" + sid, os.path.join(d, "patch.diff"))
-    res = run_checks(wt, ALL)
+    own_only = "--own" in sys.argv      # only the seed's own property (fast; meta.json is left as it is)
+    res = run_checks(wt, [meta["property"]] if own_only else ALL)
     shutil.rmtree(wt, ignore_errors=True)
     caught = [p for p, r in res.items() if r["violation"]]
-    meta["caught_by"] = caught
-    meta["checks"] = {p: r for p, r in res.items() if r["violation"] or r["undecided"]}
-    json.dump(meta, open(os.path.join(d, "meta.json"), "w"), indent=1)
+    if not own_only:
+        meta["caught_by"] = caught
+        meta["checks"] = {p: r for p, r in res.items() if r["violation"] or r["undecided"]}
+        json.dump(meta, open(os.path.join(d, "meta.json"), "w"), indent=1)
     return sid, meta["property"], caught, {p: r["undecided"] for p, r in res.items() if r["undecided"]}
 
 
